@@ -966,11 +966,10 @@ class FnBounds(object):
                             continue
                         if self.prove(G.subst(pa, LY), Y):
                             out.add(G)
-                        else:
-                            # project away atoms that only side X knows, using their constant bounds there
-                            G2 = self.project(G, X, Y, keep=(pa,))
-                            if G2 is not None and G2 not in out and self.prove(G2.subst(pa, LY), Y):
-                                out.add(G2)
+                        # also without the atoms that only side X knows (replaced by their constant bounds there)
+                        G2 = self.project(G, X, Y, keep=(pa,))
+                        if G2 is not None and G2 not in out and self.prove(G2.subst(pa, LY), Y):
+                            out.add(G2)
             # template facts: phi <= remaining bytes of a stream / <= a length parameter / <= extent of its base
             cands = [atom(("av", sv)) - atom(pa) for sv in streams]
             cands += [atom(("p0", lv)) - atom(pa) for lv in self.pairs.values()]
